@@ -739,6 +739,11 @@ func (c *Ctx) middlewareOutstanding() {
 			w.deliver(f.id, true, copyJar(w.jar), f.index, "faithful")
 		}
 	}
+	c.optionsDoNotAllowUnsolicited()
+}
+
+// optionsDoNotAllowUnsolicited (C04, C17)
+func (c *Ctx) optionsDoNotAllowUnsolicited() {
 	// options that say nothing about IdP-initiated login must not switch it on: with each of them set (and AllowIDPInitiated
 	// left unset) an unsolicited response, and a response to a request this browser does not track, are refused
 	hooks := map[string]func(o *samlsp.Options){
